@@ -1558,7 +1558,7 @@ example :
 `stack_transparent_sharp` uses `pd2npCall exc c = c` for calls without int ndarray.  The theorems below characterise the layer
 independently of `int2float`'s own equations: it is the identity EXACTLY on the calls that hold no int ndarray, no int ndarray is
 left after it, the number of positional arguments and the keyword names (in order) are kept, a keyword named in `exc` arrives as
-passed and any other keyword arrives `int2float`-ed.  Since repo 33fc9a2 (P8) the CLASS of a container argument is kept as well
+passed and any other keyword arrives `int2float`-ed.  Since repo 5e104ce (P8) the CLASS of a container argument is kept as well
 (the code passes the object itself when no member changes; container classes are not in `Val`: sampled by the `~dd / ~d2 / ~l1`
 cells of the harness). -/
 
